@@ -131,7 +131,7 @@ def run(ctx):
     # ---------------------------------------------------------------- 2. harness, dry runs -> number of crash points
     exe = ctx.cc("h_ipc_crash.c", "asan", extra=wraps())
     dry = [("C", t, op, q, 0, 0) for t in (0, 1) for op in range(5) for q in (0, 1)] + \
-          [("S", t, v, q, 0) for t in (0, 1) for v in (0, 1) for q in (0, 1)]
+          [("S", t, v, q, 0) for t in (0, 1) for v in (0, 1, 2) for q in (0, 1)]
     totals = {}
     calls = {}
 
@@ -189,7 +189,10 @@ def run(ctx):
         rng = random.Random(ctx.seed * 1000003 + 3)
         keep = set(rng.sample(range(space), max(60, space // 10)))
         # always keep a few directed points: the failed-handshake path and a server death inside a wait-forever call
-        scs = [s for i, s in enumerate(scs) if i in keep] + \
+        # ... and every stop point inside the server's own tear-down of the connection (variant 2: the last calls of its
+        # script -- unlink of each ring's data and header file, close, rmdir), empty queues
+        tear = [("S", t, 2, 0, n) for t in (0, 1) for n in range(max(1, totals[("S", t, 2, 0)] - 45), totals[("S", t, 2, 0)] + 2)]
+        scs = [s for i, s in enumerate(scs) if i in keep] + tear + \
               [("R", 0, HANDSHAKE, 3), ("R", 1, HANDSHAKE, 3), ("C", 0, 0, 0, 2, 12), ("C", 1, 0, 0, 1, 20)]
         scs = list(dict.fromkeys(scs))
     ctx.log("%d scenarios to run (enumeration space %d)" % (len(scs), space))
@@ -339,4 +342,4 @@ def describe(sc):
             sc[5], OPS[sc[2]], tr(sc[1]), "non-empty" if sc[3] else "empty", MODES[sc[4]])
     if sc[0] == "R":
         return "raw client writes %d of %d handshake bytes and dies, %s, server schedule %s" % (sc[2], HANDSHAKE, tr(sc[1]), MODES[sc[3]])
-    return "server dies at its call %d, %s, %s timeouts, queues %s" % (sc[4], tr(sc[1]), "infinite" if sc[2] else "finite", "non-empty" if sc[3] else "empty")
+    return "server dies at its call %d, %s, %s timeouts, queues %s" % (sc[4], tr(sc[1]), {0: "finite", 1: "infinite", 2: "finite (server tears the connection down itself at the end)"}[sc[2]], "non-empty" if sc[3] else "empty")
